@@ -125,6 +125,8 @@ def prepare(ctx) -> None:
             for n in ctx.own_nodes(f):
                 if isinstance(n, ast.Name) and isinstance(n.ctx, ast.Load) and n.id in alias:
                     _ALIAS[id(n)] = alias[n.id]
+    # a parameter of a private helper that receives a buffer at every call site (`_park(self.set_messages, m)`) denotes it
+    _param_aliases(ctx)
     # helper functions: methods/functions that touch a buffer directly
     for f in ctx.prog.all_functions():
         rec = {"removes": set(), "stores": set(), "reads": set()}
@@ -138,6 +140,90 @@ def prepare(ctx) -> None:
         # a function that sends is a flush / handler in its own right, judged by itself - not a helper
         if (rec["removes"] or rec["stores"] or rec["reads"]) and not any(is_send(n) for n in ctx.own_nodes(f) if isinstance(n, ast.stmt)):
             _HELPERS[f.fq] = rec
+
+
+def _param_aliases(ctx) -> None:
+    from .common import callee_names
+
+    got: dict[tuple[str, str], set] = {}  # (callee fq, param) -> buffer attrs passed
+    sites: dict[str, list] = {}
+    for f in ctx.prog.all_functions():
+        for n in ctx.own_nodes(f):
+            if not isinstance(n, ast.Call) or not isinstance(n.func, (ast.Name, ast.Attribute)):
+                continue
+            tail = n.func.id if isinstance(n.func, ast.Name) else n.func.attr
+            sites.setdefault(tail, []).append((f, n))
+    for f in ctx.prog.all_functions():
+        for n in ctx.own_nodes(f):
+            if not isinstance(n, ast.Call) or not isinstance(n.func, (ast.Name, ast.Attribute)):
+                continue
+            if not any(buffer_attr(a) for a in list(n.args) + [k.value for k in n.keywords]):
+                continue
+            try:
+                names = callee_names(ctx, f, n)
+            except AnalysisError:
+                continue
+            for nm in sorted(names):
+                try:
+                    h = ctx.func(nm)
+                except (AnalysisError, KeyError):
+                    continue
+                if h.fq != nm or not h.name.startswith("_") or h.name.startswith("__"):
+                    continue
+                pp = h.positional_params
+                off = 1 if (h.cls is not None and isinstance(n.func, ast.Attribute) and pp and pp[0] in ("self", "cls")) else 0
+                # every call of that name in the package must hand a buffer to the same parameter
+                for g_, c_ in sites.get(h.name, []):
+                    for i, a in enumerate(c_.args):
+                        if isinstance(a, ast.Starred) or i + off >= len(pp):
+                            break
+                        got.setdefault((h.fq, pp[i + off]), set()).add(buffer_attr(a) or "")
+                    for k in c_.keywords:
+                        if k.arg:
+                            got.setdefault((h.fq, k.arg), set()).add(buffer_attr(k.value) or "")
+    for (fq, prm), attrs in got.items():
+        if "" in attrs or not attrs:
+            continue
+        flat: set = set()
+        for a in attrs:
+            flat |= set(a.members) if isinstance(a, AttrSet) else {a}
+        h = ctx.func(fq)
+        # the parameter must not be re-bound in the helper
+        if any(isinstance(x, ast.Name) and x.id == prm and isinstance(x.ctx, (ast.Store, ast.Del)) for x in ctx.own_nodes(h)):
+            continue
+        al = next(iter(flat)) if len(flat) == 1 else AttrSet(flat)
+        for x in ctx.own_nodes(h):
+            if isinstance(x, ast.Name) and isinstance(x.ctx, ast.Load) and x.id == prm:
+                _ALIAS[id(x)] = al
+
+
+def owner_functions(ctx) -> list[tuple[FuncInfo, FuncInfo]]:
+    """(definition, the same with its bookkeeping helpers written out) for every function that is judged in its own
+    right.  A bookkeeping helper (private function / method of the buffer record, see sa/inline.py) whose every call in
+    the package was written out into its callers is not listed: what it does is judged where it is called, with the
+    buffer that is handed to it there."""
+    got = getattr(ctx, "_owner_functions", None)
+    if got is not None:
+        return got
+    funcs = list(ctx.prog.all_functions())
+    inl = {f: ctx.inl(f) for f in funcs}
+    written: set = set()
+    for fi in inl.values():
+        written |= set(getattr(fi, "inlined_funcs", []) or [])
+    remaining: set[str] = set()  # names still called or mentioned after writing out
+    for f, fi in inl.items():
+        for n in ctx.own_nodes(fi):
+            if isinstance(n, ast.Name) and isinstance(n.ctx, ast.Load):
+                remaining.add(n.id)
+            elif isinstance(n, ast.Attribute):
+                remaining.add(n.attr)
+    out = []
+    for f in funcs:
+        if f in written and f.name not in remaining:
+            continue
+        out.append((f, inl[f]))
+    ctx._owner_functions = out
+    return out
 
 
 def helper_calls(ctx, f: FuncInfo, what: str, attr: str) -> list[tuple[ast.Call, str]]:
@@ -662,7 +748,9 @@ def buffer_once(ctx, chk, rule: str = "BUFFER-ONCE") -> None:
                 continue
             d = ctx.prog.resolve_expr(ctx.prog.origin(f.module, node), node.func)
             if d is None or d.kind != "class" or d.obj not in carriers:
-                continue
+                d = _replace_of_carrier(ctx, f, node, carriers)
+                if d is None:
+                    continue
             par = ctx.prog.parents.get(node)
             if isinstance(par, (ast.Assign, ast.AnnAssign)) and any(isinstance(t, ast.Attribute) and t.attr == "_message_buffer" for t in (par.targets if isinstance(par, ast.Assign) else [par.target])):
                 continue  # judged above
@@ -679,6 +767,32 @@ def buffer_once(ctx, chk, rule: str = "BUFFER-ONCE") -> None:
                 what = d.obj.name if d.obj in bufcls else f"{d.obj.name} (which carries a fresh sleep buffer as a field default)"
                 chk.refute(rule, key, f"{f.qualname} builds a new {what} (`{norm(node)[:60]}`): every command parked for a sleeping node and every outstanding-request marker held at that moment is silently dropped", ctx.loc(f, node))
     chk.floor(rule, "bindings of the sleep buffer", n, 1)
+
+
+def _replace_of_carrier(ctx, f: FuncInfo, node: ast.Call, carriers: list):
+    """`dataclasses.replace(state, ...)` / `copy.replace(state, ...)` of an object that carries the buffer in a field
+    that is not an __init__ parameter (`field(default_factory=..., init=False)`): the copy is built by calling the class,
+    so it gets a fresh buffer (replace() copies only init fields)."""
+    fact = ctx.prog.call_fact(ctx.prog.origin(f.module, node), node)
+    if not (fact and fact[0] in ("dataclasses.replace", "copy.replace")) or not node.args:
+        return None
+    ty = ctx.prog.type_of(ctx.prog.origin(f.module, node), node.args[0]) or ""
+    for c in carriers:
+        if ty.split("[")[0] in (c.fq, f"{c.fq}?") or ty.replace("builtins.", "") in (c.fq,):
+            for nm, val in c.attr_order:
+                if val is None or not isinstance(val, ast.Call):
+                    continue
+                kws = {k.arg: k.value for k in val.keywords}
+                fresh = "default_factory" in kws and isinstance(kws.get("init"), ast.Constant) and kws["init"].value is False
+                if not fresh:
+                    continue
+                dd = ctx.prog.resolve_expr(c.module, kws["default_factory"]) if isinstance(kws["default_factory"], (ast.Name, ast.Attribute)) else None
+                if dd is not None and dd.kind == "class" and dd.obj in carriers and nm not in {k.arg for k in node.keywords}:
+                    from types import SimpleNamespace
+
+                    return SimpleNamespace(kind="class", obj=c)
+            return None
+    return None
 
 
 _MAPPING_PROTOCOL = (
